@@ -142,6 +142,11 @@ func init() {
 	for _, f := range testdata.Fens {
 		add(f)
 	}
+	// constructed forced-reply positions (see forced.go): the only legal moves are en-passant evasions,
+	// interposing double pawn steps, promotions, or there are at most two legal moves at all
+	for _, fc := range ForcedPool() {
+		add(fc.Fen)
+	}
 }
 
 // GenSeedFEN draws a FEN of the seed corpus.
@@ -414,6 +419,66 @@ func GenPlayoutFrom(t *rapid.T, p rc.Pos, maxPlies int, bias int) Playout {
 		p = p.Make(m)
 	}
 	return pl
+}
+
+// GenShuffleHistory builds a history of pure piece shuffles from p: both sides move a piece out and back
+// (m1 m2 m1' m2'), `cycles` times, with the last `cut` plies left off - so that the position after the history
+// is zero to three plies away from repeating an earlier one for the second or third time, at a half-move
+// clock that is a small multiple of four above the start clock (the boundary cases of every repetition and
+// fifty-move test).  Returns the playout and whether a shuffle exists in p.
+func GenShuffleHistory(t *rapid.T, p rc.Pos, maxCycles int) (Playout, bool) {
+	pl := Playout{Start: p.FEN()}
+	legal := p.Legal()
+	rc.SortMoves(legal)
+	type quad struct{ a, b, c, d rc.Move }
+	var quads []quad
+	want := p.FEN4()
+	for _, m1 := range legal {
+		if m1.Kind != rc.Normal || rc.Upper(p.B[m1.From]) == 'P' || p.IsCapture(m1) {
+			continue
+		}
+		p1 := p.Make(m1)
+		l2 := p1.Legal()
+		rc.SortMoves(l2)
+		for _, m2 := range l2 {
+			if m2.Kind != rc.Normal || rc.Upper(p1.B[m2.From]) == 'P' || p1.IsCapture(m2) {
+				continue
+			}
+			p2 := p1.Make(m2)
+			b1 := rc.Move{From: m1.To, To: m1.From, Kind: rc.Normal}
+			if !p2.IsLegalListed(b1) {
+				continue
+			}
+			p3 := p2.Make(b1)
+			b2 := rc.Move{From: m2.To, To: m2.From, Kind: rc.Normal}
+			if !p3.IsLegalListed(b2) {
+				continue
+			}
+			p4 := p3.Make(b2)
+			if p4.FEN4() == want {
+				quads = append(quads, quad{m1, m2, b1, b2})
+			}
+		}
+		if len(quads) > 40 {
+			break
+		}
+	}
+	if len(quads) == 0 {
+		return pl, false
+	}
+	q := quads[rapid.IntRange(0, len(quads)-1).Draw(t, "shuffle")]
+	// two cycles minus one or two plies is the first possible threefold repetition (clock start+8)
+	cycles := rapid.SampledFrom([]int{1, 2, 2, 2, 3}).Draw(t, "cycles")
+	if cycles > maxCycles {
+		cycles = maxCycles
+	}
+	cut := rapid.SampledFrom([]int{0, 1, 1, 2, 2, 3}).Draw(t, "cut")
+	var ms []string
+	for i := 0; i < cycles; i++ {
+		ms = append(ms, q.a.UCI(true), q.b.UCI(true), q.c.UCI(true), q.d.UCI(true))
+	}
+	pl.Moves = ms[:len(ms)-cut]
+	return pl, true
 }
 
 func parseUCIShallow(s string) (rc.Move, bool) {
